@@ -81,14 +81,22 @@ def fromStridesH : Handler := fun j => do
   let off ← optOf int (← field j "offset")
   return layoutToJson (fromStrides st tb off)
 
-/-- args: {"layout": L, "shape": [nat], "el": nat} -> {"bounds": …, "steps": …} -/
+/-- args: {"layout": L, "shape": [nat], "el": nat, "n1"?: bool (model fix FC10a), "canon"?: bool (canonicalize first)}
+    -> {"bounds": …, "steps": …} -/
 def resolveH : Handler := fun j => do
-  let l ← layoutOfJson (← field j "layout")
+  let l0 ← layoutOfJson (← field j "layout")
+  let canon := match j.getObjVal? "canon" with
+    | .ok (Json.bool b) => b
+    | _ => false
+  let l := if canon then l0.canonicalize else l0
   let sh ← listOf nat (← field j "shape")
   let el ← nat (← field j "el")
+  let n1 := match j.getObjVal? "n1" with
+    | .ok (Json.bool b) => b
+    | _ => false
   let bs := boundsAt l.ts sh
   let ss : Json := match bs with
-    | .ok b => jExc (jList (jList jNat)) (stepsAt l b el)
+    | .ok b => jExc (jList (jList jNat)) (if n1 then stepsAtN1 l b el else stepsAt l b el)
     | .error _ => Json.null
   return Json.mkObj [("bounds", jExc (jList (jList jNat)) bs), ("steps", ss)]
 
